@@ -441,6 +441,37 @@ func GenParallelHol(r *hx.Rand) Case {
 	return c
 }
 
+// GenBig draws one case of the v2 LARGE-BATCH family: ONE source batch of 2049..6000 records
+// (2049..3500 with two destinations), no processors, 1..2 destinations whose acknowledgments
+// are NOT aligned with the writes: replies of a fixed size (700..2500) or replies that cover
+// all but 1..3 of what is outstanding. Whatever the destination task does with a batch of that
+// size (one write, windows, ...), every destination must receive every record once, in order.
+func GenBig(r *hx.Rand) Case {
+	c := Case{Engine: "v2", Big: true, GoMaxProcs: []int{2, 4, 16}[r.Intn(3)], Collide: r.Bool()}
+	ndst := r.Range(1, 2)
+	n := r.Range(2049, 6000)
+	if ndst == 2 {
+		n = r.Range(2049, 3500)
+	}
+	if r.Chance(1, 4) {
+		n = 2049 + r.Intn(3)
+	}
+	c.Sources = []SrcSpec{{Batches: []int{n}, EOF: r.Bool()}}
+	c.Dests = make([]DstSpec, ndst)
+	for d := range c.Dests {
+		switch r.Intn(3) {
+		case 0:
+			c.Dests[d].ChunkLess = r.Range(1, 3)
+		case 1:
+			c.Dests[d].Chunks = []int{r.Range(700, 2500)}
+		default:
+			c.Dests[d].Chunks = []int{r.Range(1000, 2047), r.Range(1, 600)}
+		}
+	}
+	c.Sched = []int{r.Intn(1 << 16), r.Intn(1 << 16), r.Intn(1 << 16)}
+	return c
+}
+
 // MaskCases enumerates, for batch sizes 5..8, EVERY filter mask of one batch through the
 // chain filter -> transform (v2, one source, one destination): 480 cases.
 func MaskCases() []Case {
@@ -523,10 +554,72 @@ func CoqCase(c Case, o Obs, v1ckf bool) string {
 	if c.Engine == "v1" {
 		ckf = v1ckf
 	}
+	if c.Big {
+		return fmt.Sprintf("BCase (mkTopo true %d %d true) [%s]", len(c.Sources), len(c.Dests), strings.Join(rangeForm(o.Log), "; "))
+	}
 	ctor := "Case"
 	if c.Level == "service" {
 		ctor, ckf = "SCase", true // monitors only
 	}
 	return fmt.Sprintf(ctor+" (mkTopo %s %d %d %s) [%s]", hx.Bool(c.Engine == "v2"), len(c.Sources), len(c.Dests),
 		hx.Bool(ckf), strings.Join(evs, "; "))
+}
+
+// rangeForm renders a log for Multi/Check.v's BCase: runs of consecutive events of one kind over
+// consecutive emission indices become one range entry, everything else stays a plain event.
+func rangeForm(log []Ev) []string {
+	var out []string
+	consecutive := func(ks []int) bool {
+		for i := 1; i < len(ks); i++ {
+			if ks[i] != ks[i-1]+1 {
+				return false
+			}
+		}
+		return len(ks) > 0
+	}
+	for i := 0; i < len(log); {
+		e := log[i]
+		if e.T == "A" {
+			if consecutive(e.Ks) {
+				out = append(out, fmt.Sprintf("BAcks %d %s %s", e.S, hx.N(uint64(e.Ks[0])), hx.N(uint64(len(e.Ks)))))
+			} else if len(e.Ks) <= 64 {
+				out = append(out, "BEv ("+e.Coq()+")")
+			} else {
+				// a long ack that is not one run: one entry per maximal run (the monitors only
+				// look at the concatenation of the acked positions)
+				for a := 0; a < len(e.Ks); {
+					b := a + 1
+					for b < len(e.Ks) && e.Ks[b] == e.Ks[b-1]+1 {
+						b++
+					}
+					out = append(out, fmt.Sprintf("BAcks %d %s %s", e.S, hx.N(uint64(e.Ks[a])), hx.N(uint64(b-a))))
+					a = b
+				}
+			}
+			i++
+			continue
+		}
+		j := i + 1
+		if e.T == "R" || e.T == "W" || e.T == "C" {
+			for j < len(log) && log[j].T == e.T && log[j].D == e.D && log[j].S == e.S && log[j].Ok == e.Ok && log[j].K == log[j-1].K+1 {
+				j++
+			}
+		}
+		if j-i < 2 {
+			out = append(out, "BEv ("+e.Coq()+")")
+			i++
+			continue
+		}
+		from, n := hx.N(uint64(e.K)), hx.N(uint64(j-i))
+		switch e.T {
+		case "R":
+			out = append(out, fmt.Sprintf("BReads %d %s %s", e.S, from, n))
+		case "W":
+			out = append(out, fmt.Sprintf("BWrites %d %d %s %s", e.D, e.S, from, n))
+		default:
+			out = append(out, fmt.Sprintf("BConfs %d %d %s %s %s", e.D, e.S, from, n, hx.Bool(e.Ok)))
+		}
+		i = j
+	}
+	return out
 }
